@@ -77,6 +77,9 @@ def make_case(cid, rng, schema, root, n_ops, disk):
                               "DELETE FROM PerformanceData WHERE id = (SELECT MAX(id) FROM Track WHERE path IS NOT NULL)",
                               "UPDATE Track SET length = NULL, year = NULL"])
             add({"op": "raw_exec", "sql": sql}, None)
+    if disk:
+        # the audio files the tracks name really exist next to the library; every other track has no stored file size
+        add({"op": "touch_track_files", "dir": d, "clear_sizes": True}, "touch")
     # lookups must also be asked for keys that do not exist
     add({"op": "note", "names": ["6e6f2d737563682d6372617465", "41"], "paths": ["6e6f2f737563682f706174682e6d7033"], "ids": [0, -1, 424242]}, None)
     add({"op": "counters"}, "c0")
@@ -142,6 +145,8 @@ def judge_case(ctx, res):
             ctx.fail_harness("observing block incomplete: %s" % bad)
         return
     ctx.count()
+    if "touch" in by and "ret" in by["touch"]:
+        ctx.bump("audio_files_that_really_exist_next_to_the_library", by["touch"]["ret"]["made"])
     n_wr = 0
     for m in ("o1", "o2", "verify", "t1", "t2", "exists", "load_probe", "handle_ops"):
         if m in by:
